@@ -55,6 +55,31 @@ def enumeration():
     return hist
 
 
+def successions():
+    """the same object fitted twice: for every ordered pair of catalogue
+    values of one key (near-equal neighbours included) the second fit has
+    to expose the hash of ITS settings"""
+    import itertools
+    hist = []
+    for key, vals in world.CATALOG.items():
+        good = [v for v, (_c, bad) in vals.items() if not bad]
+        if key == "params_initial":
+            good = [v for v in good
+                    if world.PARAMS_MODEL[v] == "hertz_para"]
+        if key == "model_key":
+            continue
+        for a, b in itertools.permutations(good, 2):
+            kwa, kwb = dict(BASE), dict(BASE)
+            kwa[key], kwb[key] = a, b
+            hist.append([{"op": "apply", "pipe": "P1"},
+                         {"op": "fit", "kw": kwa}, {"op": "fit", "kw": kwb}])
+            hist.append([{"op": "apply", "pipe": "P1"},
+                         {"op": "fit", "kw": kwa},
+                         {"op": "set", "key": key, "val": b},
+                         {"op": "fit", "kw": {}}])
+    return hist
+
+
 def child(out_path):
     """runs in a sub-interpreter (own PYTHONHASHSEED)"""
     hist = enumeration()
@@ -62,6 +87,12 @@ def child(out_path):
     traces, hashobs = [], []
     for cids in (["syn1"], ["syn1x"], ["syn1t"], ["rec1"]):
         tr, ho, _ = curve_check.execute(hist, tags, cids)
+        traces += tr
+        hashobs += ho
+    if os.environ.get("PYTHONHASHSEED") == "0":
+        hist = successions()
+        tr, ho, _ = curve_check.execute(
+            hist, [f"succ:{i}" for i in range(len(hist))], ["syn1"])
         traces += tr
         hashobs += ho
     json.dump(vcommon.jsonable({"hashobs": hashobs,
